@@ -168,7 +168,8 @@ func (f *Font) GlyphAdvanceForDirection(glyph GID, dir Direction) (x, y Position
 // for horizontal text segments.
 func (f *Font) GlyphHAdvance(glyph GID) Position {
 	adv := f.face.HorizontalAdvance(glyph)
-	return f.emScalefX(adv)
+	// Harfbuzz rounds the unscaled advance, then uses its 16.16 multiplier
+	return f.emScaleX(int16(roundf(adv)))
 }
 
 // Fetches the advance for a glyph ID in the font,
@@ -176,7 +177,7 @@ func (f *Font) GlyphHAdvance(glyph GID) Position {
 func (f *Font) getGlyphVAdvance(glyph GID) Position {
 	if f.face.HasVerticalMetrics() {
 		adv := f.face.VerticalAdvance(glyph)
-		return f.emScalefY(adv)
+		return f.emScaleY(int16(roundf(adv)))
 	} else {
 		fontExtents := f.fontHExtentsWithFallback()
 		advance := Position(-(fontExtents.Ascender - fontExtents.Descender))
